@@ -48,7 +48,7 @@ CLAIMS = {
                      'Structural/lexical classes, not all byte contents.', ref='6/C12',
                 note='The space is an enumeration of mutation classes over one seed directory, not all byte contents. Trusted: TLC, Json/IOUtils modules, Go recover().'),
     'C13': dict(tech='TLA+ state machine of the processing pipeline (Pipeline.tla: scan with extension filter and per-file abort, per-document conversion, stop-on-error, engine build, analysis) model-checked for the four clauses over every scenario; every scenario materialised and run through list and diff (either side); outcomes validated by TLC (PipelineTrace.tla) against the clauses and the model\'s predicted outcome',
-                text='For all directories made of 3 layouts of 4 good documents with up to 2 (quick) / 3 (thorough) injected items of the classes named in the property x stopOnError x {list, diff dir1, diff dir2}: connections equal the baseline of the good documents alone, every malformed/unreadable item yields a severe entry (attributable to its file for list), stop-on-error yields no connections, a fatal conflict yields an error and no result, and the outcome class equals the one predicted by the pipeline machine.', ref='6/C13',
+                text='For all directories made of 3 layouts of 4 good documents (and a fourth template without any NetworkPolicy) with up to 2 (quick) / 3 (thorough) injected items of the classes named in the property x stopOnError x {list, diff dir1, diff dir2}: connections equal the baseline of the good documents alone, every malformed/unreadable item yields a severe entry (attributable to its file for list), stop-on-error yields no connections, a fatal conflict yields an error and no result, and the outcome class equals the one predicted by the pipeline machine.', ref='6/C13',
                 note='Concrete junk per class comes from a small catalogue. A syntactically broken document inside a good multi-document file is excluded (the resource builder abandons the rest of that file; named ScanFileAbort in the model). Attribution to a file is demanded for list only.'),
     'C14': dict(tech='edge laws (Laws.tla) attached to Cluster.tla actions: TLC checks them on the reference (LawsCheck) and ReplayTrace asserts them on the two real reports of every edge',
                 text='Additivity, locality and re-spelling invariance asserted oracle-free on pairs of real reports for every AddRule/AddPolicy/Respell*/Split* edge of TLC-generated behaviours; the laws themselves are TLC-checked consequences of the reference.', ref='6/C14'),
